@@ -139,3 +139,31 @@ def header_quota(o):
     if 'quota' in o.record:
         return frac(o.record['quota'])
     return next(a['quota'] for a in o.actions if a['tag'] != 'log')
+
+
+def arithmetic_not_as_requested(case, ar):
+    """wigm/meek/warren force nothing: an arithmetic, precision or guard the caller asks for explicitly is the one the count
+    must run with (integer = zero places whatever precision is given).  Returns a description of the mismatch or None."""
+    if case['rule'] not in ('wigm', 'meek', 'warren') or case.get('file_options'):
+        return None
+    o = case.get('options') or {}
+    a = o.get('arithmetic')
+    if a is None:
+        return None
+    p, g = o.get('precision'), o.get('guard')
+    want = None
+    if a == 'integer':
+        want = ('Fixed', 0, None)
+    elif a == 'fixed':
+        want = ('Fixed', p, None)
+    elif a == 'guarded':
+        want = ('Guarded', p, g)
+    elif a == 'rational':
+        want = ('Rational', None, None)
+    if want is None:
+        return None
+    got = (ar.cls, ar.precision, ar.guard)
+    for w, h, what in zip(want, got, ('class', 'precision', 'guard')):
+        if w is not None and isinstance(w, (int, str)) and not isinstance(w, bool) and str(w) != str(h):
+            return 'asked for arithmetic=%s precision=%s guard=%s, the count runs with %s precision=%s guard=%s' % (a, p, g, ar.cls, ar.precision, ar.guard)
+    return None
